@@ -56,6 +56,16 @@ CHECKS = {
          "Every history up to depth 4 (thorough 5) over 22 operations (create bundle/category, post with 1- and 255-byte titles/posters and bodies up to 65,000 bytes, reply, delete article, delete item, reload): get-article for every present id, the article list decoded strictly (ids once, in order, sizes and flavors), category listings of every path and a second store loaded from the YAML file must equal the model; new ids unused, parent recorded, linked after the previous newest.",
          "Fresh names for new groupings; links of remaining articles after a deletion are unspecified and not compared.",
          "DESIGN.md §5 C18"),
+ "C08": ("exploration",
+         "bounded-exhaustive input enumeration of downloads with a reference transfer client parsing the real transfer stream",
+         "~1,200 downloads: sizes around every buffer boundary up to 1 MiB+3 (thorough 5 MiB) x six stored-fork sets x resume offsets (all for small files) x name shapes x preview; the reply's size fields and the stream (FILP header with self-consistent INFO size and name length, exactly data[k:], resource fork iff stored, nothing else but the pinned empty MACR header) are checked by an independent parser.",
+         "One empty MACR header after the announced size is pinned by the existing test and tolerated; DATA-header size on resume is unspecified.",
+         "DESIGN.md §5 C08"),
+ "C09": ("fault_enumeration",
+         "exhaustive enumeration of connection-cut points (reset and clean end-of-stream) over upload/resume histories on the real transfer path, directory compared with the reference after every cut",
+         "~67,000 histories: for five data sizes with/without resource fork and fork preservation the upload stream is cut at every byte offset (every structural boundary for 33,000 bytes), resumed from the server-reported offset, cut again (all pairs for the 8-byte file), completed and downloaded: final name absent until complete, .incomplete = delivered prefix, reported offset = its size, published file = sent bytes, existing file never overwritten.",
+         "A cut delivers an in-order prefix; at most 2 (thorough 3) cuts; re-upload without resume over a partial is unspecified and not enumerated.",
+         "DESIGN.md §5 C09"),
 }
 NOT_YET = "check not built yet in this session (see DESIGN.md §11 build order)"
 
